@@ -196,6 +196,29 @@ def gen_C07(rng, tier):
         finish(p, y, bs, rng, [a, b])
         p.tag('implicit-' + op, 'factor>1' if (prod(bs) > prod(sa) or prod(bs) > prod(sb)) else 'factor1')
         progs.append(p)
+    # several results over the SAME tracked operands (the same expansions requested repeatedly), all built first and
+    # then back-propagated one after the other: the operand's gradient is the sum of the per-graph gradients
+    for i in range(cnt // 2):
+        p = Prog('c07_multi%d' % i)
+        target = rand_shape(rng, 3, 3, 1)
+        sx = broadcast_sources(rng, target)
+        x = p.tensor(sx, [0.5 + 0.25 * j for j in range(prod(sx))], tracked=True)
+        roots = []
+        for k in range(rng.randint(2, 3)):
+            op = rng.choice(['add', 'sub', 'mul', 'div', 'explicit'])
+            c = p.tensor(target, [1.0 + 0.5 * ((j + 3 * k) % 7) for j in range(prod(target))], tracked=rng.random() < 0.3)
+            if op == 'explicit':
+                e = p.bind('broadcast %s %s' % (x, ints(target))); y = p.bind('mul %s %s' % (e, c))
+            else:
+                y = p.bind('%s %s %s' % (op, x, c))
+            roots.append(y)
+        between = rng.random() < 0.5
+        for y in roots:
+            p.add('bp %s' % y)
+            if between: p.add('obs %s' % x)
+        p.add('obs %s' % x)
+        p.tag('several-roots-same-operand', 'factor>1' if prod(target) > prod(sx) else 'factor1')
+        progs.append(p)
     for i in range(cnt // 2):
         p = Prog('c07_mm%d' % i)
         batch = rand_shape(rng, 2, 2, 0)
@@ -492,6 +515,29 @@ def exhaustive_flag_states(tier):
             p.add('bp %s' % r); p.add('obs %s' % a); p.add('obs %s' % r)
             r2 = p.bind('scale %s %s' % (r, f2b(3.0))); p.add('obs %s' % r2)
             p.tag('exhaustive-flag-states'); progs.append(p)
+    # gradient tensors handed out by Gradient() after a back-propagation through EVERY kind of operation (whatever rule
+    # produced them, they are untracked, and so is everything computed from them; back-propagating from such a result
+    # changes nothing)
+    GU = UN + ['pow $A %s' % f2b(0.0), 'pow $A %s' % f2b(1.0), 'scale $A %s' % f2b(0.0), 'varalong $B 1', 'stdalong $B 1', 'maxalong $B 1',
+               'sumalong $B 1', 'squeeze $B 1', 'unsqueeze $B 1']
+    for gi, u in enumerate(GU):
+        for first in (True, False):
+            p = Prog('fs_g_%d_%d' % (gi, first))
+            a = p.tensor(shape, vals, tracked=True)
+            b = p.tensor([2, 1], [0.5, 1.5], tracked=True)
+            src = b if '$B' in u else a
+            y = p.bind(u.replace('$A', a).replace('$B', b))
+            if not first:
+                # another consumer delivers its contribution before this one
+                y0 = p.bind('scale %s %s' % (src, f2b(3.0))); p.add('bp %s' % y0)
+            p.add('bp %s' % y)
+            g = p.bind('grad %s' % src, 'g'); p.add('obs %s' % g)
+            r = p.bind('mul %s %s' % (g, g)); p.add('obs %s' % r)
+            fresh = p.tensor([2, 2] if src == a else [2, 1], vals if src == a else [0.25, 0.75], tracked=True)
+            r2 = p.bind('add %s %s' % (g, fresh)); p.add('obs %s' % r2)
+            p.add('bp %s' % r); p.add('obs %s' % src); p.add('obs %s' % g)
+            p.add('bp %s' % r2); p.add('obs %s' % src); p.add('obs %s' % fresh)
+            p.tag('exhaustive-flag-states', 'gradient-of-each-rule'); progs.append(p)
     for sa in STATES:
         for sb in STATES:
             for o in BINOPS + ['concat', 'patch']:
